@@ -345,7 +345,7 @@ def validate(seed, tier):
 
 
 MANIFEST_ENTRY = {
-    "level_text": "Bounded symbolic execution of the real Taus.__call__ (energy/exit-probability kernels stubbed by symbolic columns) and the real EAS.altDec with tau energy, etau_frac, emergence angle (symbolic angle in [0,42 deg]), speed, Lorentz factor and u in (0,1] symbolic: nlsat proves gamma = E/m_tau >= 1, speed = sqrt(1-1/gamma^2) in (0,1), shower energy = f E/1e8, decay length = -gamma beta c tau0 ln u against reference constants (1e-6), its sign, strict monotonicity in u and the exponential law, altitude = |R e_r + l d(beta)| - R from explicit vectors, non-negativity and monotonicity in length and angle. The precondition E > m_tau is decided over every cell of the three shipped CDF tables by z3 queries with a symbolic cell index.",
+    "level_text": "Bounded symbolic execution of the real Taus.__call__ (energy/exit-probability kernels stubbed by symbolic columns) and the real EAS.altDec with tau energy, etau_frac, emergence angle (symbolic angle in [0,42 deg]), speed, Lorentz factor and u in (0,1] symbolic: nlsat proves gamma = E/m_tau >= 1, speed = sqrt(1-1/gamma^2) in (0,1), shower energy = f E/1e8, decay length = -gamma beta c tau0 ln u against reference constants (1e-6), its sign, strict monotonicity in u and the exponential law, altitude = |R e_r + l d(beta)| - R from explicit vectors, non-negativity and monotonicity in length and angle. The precondition E > m_tau is decided over every cell of the three shipped CDF tables by z3 queries with a symbolic cell index, and a chain job runs the real Taus.__call__ with the REAL tau_energy (sampler on a symbolic 2x2 table cell) for every regime of the emergence angle -- below the table, exactly ON the first / last tabulated angle, inside, above -- proving that every sampled tau gets at least the smallest tabulated fraction of the neutrino energy, hence gamma >= 1 and 0 < speed < 1.",
     "level_note": "REAL arithmetic; log/exp Ackermannised with inverse/monotonicity axioms; sin/cos of the emergence angle as a unit-circle point with monotonicity on [-pi/2, pi/2]; N <= 2; u = 0 outside the quantifier.",
     "technique": "symbolic execution of the real NumPy source + z3 qfnra-nlsat (Ackermannised log/exp, algebraised trigonometry); z3 table queries",
 }
